@@ -184,6 +184,28 @@ theorem C10_accept_row {β : Type} (limit offset : Option Nat) (rows : List (Opt
 example : acceptRows (some 2) (some 1) {} [(some 1, "a"), (some 1, "a'"), (some 2, "b"), (none, "c"), (some 3, "d")]
     = [(some 2, "b"), (none, "c")] := by decide
 
+/-- **Response-writer stage under duplicated input.**  The writer dedupes by event id, THEN
+counts OFFSET, THEN LIMIT.  Consequently, for ANY incoming sequence of rows — the same event id
+may arrive any number of times and anywhere, as happens while a shard is inside its flush window
+(segment published, passive buffer not yet cleared) — the page of `LIMIT n OFFSET m` has pairwise
+different ids, consists of rows that arrived, and holds exactly `min n (d - m)` rows
+(= `min(n, max(0, d-m))`), where `d` is the number of distinct ids that arrived. -/
+theorem C10_accept_page {β : Type} (n m : Nat) (rows : List (Nat × β))
+    (dist : List Nat) (hdn : dist.Nodup) (hdist : ∀ i, i ∈ dist ↔ ∃ r ∈ rows, r.1 = i) :
+    let out := acceptRows (some n) (some m) {} (rows.map fun r => ((some r.1 : Option Nat), r.2))
+    (out.map (·.1)).Nodup ∧
+    (∀ r ∈ out, ∃ x ∈ rows, r = (some x.1, x.2)) ∧
+    out.length = min n (dist.length - m) :=
+  accept_page n m rows dist hdn hdist
+
+/-- The order of the three steps matters: counting OFFSET on the raw sequence before dropping
+duplicates gives a different page as soon as an id repeats (ids 1 2 1 2, LIMIT 5 OFFSET 2: the
+writer returns nothing — two distinct events, both skipped — whereas offset-first returns both). -/
+theorem C10_offset_before_dedup_differs :
+    acceptRows (some 5) (some 2) {} [(some 1, "a"), (some 2, "b"), (some 1, "a"), (some 2, "b")] = [] ∧
+    offsetFirst 5 2 [(some 1, "a"), (some 2, "b"), (some 1, "a"), (some 2, "b")] ≠ [] := by
+  constructor <;> decide
+
 /-- Unordered LIMIT n OFFSET m (no ORDER BY): every flow (memtable tier / segment tier of every
 shard) delivers at most `n+m` matching rows, no event twice within one flow; the coordinator
 forwards them in ANY arrival order (`arrived` is any permutation); the response writer dedups by
